@@ -607,7 +607,7 @@ func freeRunRace(c *Collector, scs []*ConcScenario, iterations int) {
 				wg.Add(1)
 				go func() {
 					defer wg.Done()
-					for rep := 0; rep < 3; rep++ {
+					for rep := 0; rep < 150; rep++ {
 						for _, op := range prog {
 							call(op)
 						}
